@@ -252,6 +252,9 @@ func runSolver(sp solverSpec, vc string, timeout int) (string, string, float64) 
 }
 
 // solveOb discharges one obligation with the portfolio. thorough: all solvers must not disagree.
+// knownHashes: obligation name -> hash of the condition discharged when the ledger was written (set by cmdCheck).
+var knownHashes map[string]string
+
 // vcHash identifies a verification condition up to comments: the ledger keeps it for every discharged obligation, and an
 // obligation whose solvers all time out is still discharged when its condition is literally the one proved before.
 func vcHash(vc string) string {
@@ -336,6 +339,9 @@ func (e *Engine) solveOb(o *Oblig, timeout int, thorough bool, dumpDir string) {
 		o.Status = "unknown"
 		// nobody decided it: one more attempt with a longer limit and another seed before giving up
 		// (keeps a heavily loaded machine from turning a slow proof into an alarm)
+		if h, ok := knownHashes[o.name]; ok && h == o.VCHash {
+			break // the identical condition was discharged when the ledger was written: no need to wait for a retry
+		}
 		if os.Getenv("GOVC_NORETRY") != "" {
 			break // must-fail corpus runs: an undecided obligation of a deliberately broken tree needs no second opinion
 		}
